@@ -79,12 +79,13 @@ def describe(tier):
     if tier == "thorough":
         return ("10 elements in %d configurations; |A| <= 2 (all ordered lists over the element's pool "
                 "of selected values), |B| <= 3 (all 16 + 256 + 4096 ordered lists over the element's 16 "
-                "foreign values), all interleavings; LaTeXToPDF: all completion schedules of the fake "
-                "converter processes" % _n_cfgs())
+                "foreign values; LaTeXToPDF: |B| = 3 over its 8 most different foreign values, 512 "
+                "lists), all interleavings; LaTeXToPDF: all completion schedules of the fake converter "
+                "processes" % _n_cfgs())
     return ("10 elements in %d configurations; |A| <= 2, |B| <= 2 over the element's 16 foreign values "
             "(all 16 + 256 lists) and |B| = 3 over its %d most different foreign values (%d lists), all "
-            "interleavings; LaTeXToPDF: all completion schedules of the fake converter processes"
-            % (_n_cfgs(), al.SUBPOOL, al.SUBPOOL ** 3))
+            "interleavings; LaTeXToPDF: 3 of its 5 kinds of selected values and all completion schedules "
+            "of the fake converter processes" % (_n_cfgs(), al.SUBPOOL, al.SUBPOOL ** 3))
 
 
 def _n_cfgs():
@@ -127,13 +128,7 @@ def shards(tier):
                     out.append({"kind": kind, "cfg": cfg, "blen": 0, "prefix": [],
                                 "bound": "|B|<=0"})
                     continue
-                pool = al.b_pool(kind, cfg)
-                if blen == 3 and tier != "thorough":
-                    pool = al.b_subpool(kind, cfg)
-                    for b0 in pool:
-                        out.append({"kind": kind, "cfg": cfg, "blen": 3, "prefix": [b0], "sub": True,
-                                    "bound": "|B|<=3 (|B|=3 over the %d-value sub-pool)" % al.SUBPOOL})
-                    continue
+                pool = al.b_pool_for(kind, cfg, blen, tier)
                 plen = 1 if blen <= 2 else 2
                 for pre in itertools.product(pool, repeat=plen):
                     out.append({"kind": kind, "cfg": cfg, "blen": blen, "prefix": list(pre),
@@ -141,11 +136,11 @@ def shards(tier):
     return out
 
 
-def b_lists(p):
+def b_lists(p, tier):
     kind, cfg, blen = p["kind"], p["cfg"], p["blen"]
     if blen == 0:
         return [()]
-    pool = al.b_subpool(kind, cfg) if p.get("sub") else al.b_pool(kind, cfg)
+    pool = al.b_pool_for(kind, cfg, blen, tier)
     pre = tuple(p["prefix"])
     return [pre + rest for rest in itertools.product(pool, repeat=blen - len(pre))]
 
@@ -502,7 +497,7 @@ def run_shard(p, tier):
     with scratch_dir(prefix="lena-verif-c10-") as root, _quiet():
         dirs = _Dirs(root)
         alist = a_lists(kind, cfg, tier)
-        for b_names in b_lists(p):
+        for b_names in b_lists(p, tier):
             for a_names in alist:
                 for pattern in patterns(len(a_names), len(b_names)):
                     case = check_case(res, dirs, cache, kind, cfg, tuple(a_names), tuple(b_names),
